@@ -35,6 +35,7 @@ pub fn choose_layout(ch: &mut Chooser) -> Layout {
         name_garbage: ch.flag("cfb.stale-bytes-after-name-terminator"),
         size_hi_garbage: ch.flag("cfb.v3-junk-in-upper-half-of-size-field"),
         empty_minifat_sector: ch.flag("cfb.mini-fat-sector-without-mini-stream"),
+        spare_chain_sectors: ch.pick("cfb.spare-sectors-at-the-end-of-chains", &[0usize, 2]),
     }
 }
 
@@ -88,7 +89,7 @@ fn run_case(rep: &Report, ch: &mut Chooser, sizes: &[usize], local: &mut Vec<(u6
 
 pub fn check(rep: &Report) {
     let t = crate::thorough(&rep.tier);
-    rep.rule("(a) stream sets = 1..3 streams with sizes from {0,1,63,64,65,4095,4096,4097,8191,8192,65536} (all singles, all ordered pairs, selected triples; thorough adds a 15.3 MB stream whose 236 FAT sectors fill the header DIFAT and one complete DIFAT sector); layout = v3/v4 x 8 sector orders x 4 mini-sector orders x unused directory entries x directory order x free sectors x extra FAT sectors x free mini sectors x stale bytes after the directory-name terminator; full layout product (9216) per set in thorough, <=2 deviations in quick plus the full product on 6 sets; non-trivial = non-default layout; distinct by container bytes; (b) end to end: one xls workbook with a two-module VBA project (Workbook stream below or above the 4096-byte cutoff) in the same layouts (quick <= 2 deviations, thorough full product) must read as the same ranges, module bytes and references as in the default layout");
+    rep.rule("(a) stream sets = 1..3 streams with sizes from {0,1,63,64,65,4095,4096,4097,8191,8192,65536} (all singles, all ordered pairs, selected triples; thorough adds a 15.3 MB stream whose 236 FAT sectors fill the header DIFAT and one complete DIFAT sector); layout = v3/v4 x 8 sector orders x 4 mini-sector orders x unused directory entries x directory order x free sectors x extra FAT sectors x free mini sectors x stale bytes after the directory-name terminator x junk in the upper half of v3 size fields x a mini FAT sector without mini stream x chains owning 2 spare sectors; full layout product (73728) per set in thorough, <=2 deviations in quick plus the full product on 6 sets; non-trivial = non-default layout; distinct by container bytes; (b) end to end: one xls workbook with a two-module VBA project (Workbook stream below or above the 4096-byte cutoff) in the same layouts (quick <= 2 deviations, thorough full product) must read as the same ranges, module bytes and references as in the default layout");
     rep.assume("zero-length streams are written with start sector ENDOFCHAIN; the red-black colouring of the directory tree is not varied (calamine does not walk the tree)");
     let sizes = [0usize, 1, 63, 64, 65, 4095, 4096, 4097, 8191, 8192, 65536];
     let mut sets: Vec<Vec<usize>> = vec![];
